@@ -547,7 +547,9 @@ func (ro *RedisOutput) sendRdb(pctx context.Context, reader ChannelReader) error
 					continue
 				}
 
-				if len(e.Key) > 0 {
+				if e.ObjectParser != nil && bisyncRdbEntryHasKey(e) {
+					// every chunk of a value to the same worker, which remembers what it decided for
+					// the first one; the empty string is a key too
 					idx = util.FnvHash(e.Key) % pipeLen
 				} else {
 					idx = (idx + 1) % pipeLen
